@@ -440,8 +440,25 @@ func parseOut(out []byte, fastq bool) ([]gen.FRec, error) {
 	return gen.ParseFasta(out)
 }
 
-func runE2E(c *core.Ctx) {
+func runE2E(c *core.Ctx) { runE2EWith(c, false) }
+
+// runE2EAsan: the same workload with obiconvert built with -asan (Go heap and the C reader of the
+// stdin path, kseq + zlib, are instrumented); a sanitizer report is a violation of its own.
+func runE2EAsan(c *core.Ctx) { runE2EWith(c, true) }
+
+func runE2EWith(c *core.Ctx, asan bool) {
 	format := formats[c.Idx%4]
+	if asan {
+		format = formats[c.Idx%2] // the C reader handles FASTA and FASTQ
+	}
+	bin := filepath.Join(c.BinDir, "obiconvert")
+	if asan {
+		bin = filepath.Join(c.BinDir, "asan", "obiconvert")
+		if _, err := os.Stat(bin); err != nil {
+			c.Inconclusive("the -asan build of obiconvert is missing")
+			return
+		}
+	}
 	nrec := 3 + c.Rng.Intn(c.Pick(60, 400))
 	maxLen := 120
 	if format == "genbank" || format == "embl" {
@@ -493,14 +510,29 @@ func runE2E(c *core.Ctx) {
 		if chunk > 0 {
 			opt.Env = []string{fmt.Sprintf("OBIVERIF_CHUNK=%d", chunk), fmt.Sprintf("OBIVERIF_YIELD=%d:300:200", c.Idx)}
 		}
+		if asan {
+			if !v.stdin && v.name != "file" && v.name != "file-gzip" {
+				continue
+			}
+			opt.Env = append(opt.Env, "ASAN_OPTIONS=detect_leaks=0:abort_on_error=0:exitcode=97")
+			opt.Timeout = 300 * time.Second
+		}
 		if v.stdin {
 			opt.StdinFile = v.path
 		} else {
 			args = append(args, v.path)
 		}
-		res := cmdx.Run(filepath.Join(c.BinDir, "obiconvert"), args, opt)
+		res := cmdx.Run(bin, args, opt)
 		c.Count("evaluations", 1)
 		c.Count("command_runs", 1)
+		if asan {
+			c.Count("asan_runs", 1)
+			if strings.Contains(string(res.Stderr), "AddressSanitizer") {
+				c.Violate(fmt.Sprintf("asan:%s:%s", format, v.name), "AddressSanitizer reports a memory error while obiconvert reads a well-formed input",
+					map[string]any{"format": format, "transport": v.name, "args": args, "forced_chunk_size": chunk, "records": nrec, "style": fc.style, "report": cmdx.Diag(res.Stderr, 3000)})
+				continue
+			}
+		}
 		det := map[string]any{"format": format, "transport": v.name, "args": args, "forced_chunk_size": chunk, "records": nrec, "style": fc.style, "exit": res.Exit, "stderr": cmdx.Tail(res.Stderr, 600)}
 		if res.TimedOut {
 			if res.Deadlock {
@@ -514,7 +546,7 @@ func runE2E(c *core.Ctx) {
 			c.Violate(fmt.Sprintf("exit:%s:%s", format, v.name), "obiconvert fails on a well-formed input", det)
 			continue
 		}
-		c.Key("e2e/%s/%s/%d/%v", format, v.name, chunk, nrec/50)
+		c.Key("e2e/%s/%s/%d/%v/%v", format, v.name, chunk, nrec/50, asan)
 		got, err := parseOut(res.Stdout, format == "fastq")
 		if err != nil || len(got) != len(fc.recs) {
 			det["stdout"] = cmdx.Tail(res.Stdout, 800)
@@ -615,16 +647,18 @@ func init() {
 	core.Register(&core.Property{
 		ID:    "C01",
 		Level: "exploration",
-		Rule: "files are generated from a drawn record list (ground truth) and rendered with format variation (FASTA folding 1..120 or none, LF/CRLF, final newline or not, case mix, FASTQ quality lines starting with '@'/'+' or made of letters, '+id' lines, ids/definitions containing '>' '@' '+' '{', GenBank/EMBL records with and without taxon cross-reference, 1-3 definition lines). Layer 1: ReadSeqFileChunk with EVERY buffer size b in [2, len+2] (step>1 only above 1.5k/6k bytes) over bytes / one-byte / short-read readers, each chunk parsed on its own by the real chunk parser; layer 2: the real ReadFasta/ReadFastq/ReadGenbank/ReadEMBL with forced chunk size, 1-8 parser workers, yields, os.Pipe; layer 3: obiconvert over file / stdin / forced format / gzip,bzip2,xz,zstd. " +
+		Rule: "files are generated from a drawn record list (ground truth) and rendered with format variation (FASTA folding 1..120 or none, LF/CRLF, final newline or not, case mix, FASTQ quality lines starting with '@'/'+' or made of letters, '+id' lines, ids/definitions containing '>' '@' '+' '{', GenBank/EMBL records with and without taxon cross-reference, 1-3 definition lines). Layer 1: ReadSeqFileChunk with EVERY buffer size b in [2, len+2] (step>1 only above 1.5k/6k bytes) over bytes / one-byte / short-read readers, each chunk parsed on its own by the real chunk parser; layer 2: the real ReadFasta/ReadFastq/ReadGenbank/ReadEMBL with forced chunk size, 1-8 parser workers, yields, os.Pipe; layer 3: obiconvert over file / stdin / forced format / gzip,bzip2,xz,zstd; the stdin (C reader: kseq + zlib) and file transports again with an AddressSanitizer build of the command. " +
 			"distinct_nontrivial = distinct (layer, format, style, #chunks class, transport, workers) with at least 2 chunks (layers 1-2) or distinct (format, transport, chunk size, size class) command runs (layer 3)",
 		Assume: []string{"well-formed input as defined in DESIGN.md Appendix A.4 (no blank lines inside files, no empty sequences, flat-file lines <= 100 columns)", "b = 1 is excluded (the reader cannot progress with a one-byte buffer; production buffers are >= 1 MiB)"},
 		Subs: []core.Sub{
 			{Name: "chunk", N: core.Const(48, 320), Run: runChunk},
 			{Name: "reader", N: core.Const(192, 1920), Run: runReader, Race: true, NRace: core.Const(48, 192)},
 			{Name: "e2e", N: core.Const(16, 96), Run: runE2E},
+			{Name: "e2e-asan", N: core.Const(8, 64), Run: runE2EAsan, TimeoutS: 3000},
 			{Name: "bigfile", N: core.Const(2, 4), Run: runBig, Serial: false, TimeoutS: 1800},
 		},
 		Cmds:          []string{"obiconvert"},
+		AsanCmds:      []string{"obiconvert"},
 		MinNontrivial: 200,
 		RaceFiles:     []string{"pkg/obiformats/seqfile_chunk_read.go", "pkg/obiformats/fastqseq_read.go", "pkg/obiformats/fastaseq_read.go", "pkg/obiformats/genbank_read.go", "pkg/obiformats/embl_read.go", "pkg/obiformats/fastseq_read.go", "pkg/obiformats/universal_read.go", "pkg/obiformats/xopen.go"},
 	})
